@@ -173,8 +173,21 @@ def inventory_rules(ctx, prog):
            "execs or fails) and in the reap of a child that already reported failure", ok, {k: sorted(v) for k, v in kinds.items()}, nontrivial=True)
 
 
+def mode_changers(ctx, prog):
+    """N5: the blocking mode of a pipe is decided when it is created (and forced for start-up input); no later call - poll, read,
+    write, wait, stop, close ... - changes it behind the caller's back"""
+    from .. import apirules as R
+    for f in ("reproc_poll", "reproc_read", "reproc_write", "reproc_wait", "reproc_stop", "reproc_close", "reproc_terminate", "reproc_kill"):
+        res, F, I = R.run_poll(ctx, prog) if f == "reproc_poll" else R.run(ctx, prog, f)
+        ch = sorted({site_of(e[1], e[2]) for e in res.events if e[0] == "nonblocking" or
+                     (e[0] == "fcntl" and len(e[3]) > 1 and e[3][1] == fs(4))})
+        ctx.ob("C17.N5", f, "this call does not change the blocking mode of any pipe (F_SETFL / the mode helper are used at pipe "
+               "creation and for start-up input only)", not ch, {"mode_changes": ch[:3]}, nontrivial=True)
+
+
 def check(ctx):
     prog = ctx.prog("posix-mt")
+    mode_changers(ctx, prog)
     leaf_contract(ctx, prog)
     end_rules(ctx, prog)
     option_rules(ctx, prog)
